@@ -705,6 +705,38 @@ impl<
     }
 }
 
+// ---------------------------------------------------------------------------
+// Verification hooks (cargo feature `verif-hooks`, off by default).
+// ---------------------------------------------------------------------------
+#[cfg(feature = "verif-hooks")]
+impl<K: Hash + Eq, V, KH: KeyHasher<K>, FH: BuildHasher, RH: BuildHasher, WH: BuildHasher>
+    WTinyLFUCache<K, V, KH, FH, RH, WH>
+{
+    /// Read-only view of `(window, main, estimator)`.
+    #[doc(hidden)]
+    #[allow(clippy::type_complexity)]
+    pub fn verif_parts(
+        &self,
+    ) -> (
+        &LRUCache<K, V, WH>,
+        &SegmentedCache<K, V, FH, RH>,
+        &TinyLFU<K, KH>,
+    ) {
+        (&self.lru, &self.slru, &self.tinylfu)
+    }
+
+    /// Forces a re-hash of the index of list `which`
+    /// (0 = window, 1 = probationary, 2 = protected).
+    #[doc(hidden)]
+    pub fn verif_rehash(&mut self, which: usize) {
+        match which {
+            0 => self.lru.verif_rehash(),
+            1 => self.slru.verif_rehash(0),
+            _ => self.slru.verif_rehash(1),
+        }
+    }
+}
+
 #[cfg(test)]
 mod test {
     use core::hash::BuildHasher;
